@@ -530,10 +530,18 @@ def run(ck):
     ck.note("hio_users", ["%s:%s:%s" % (u["file"], u["func"], u["kind"]) for u in gen["hio_users"]])
     ck.note("divergence_map", {"eof_files": gen["eof_files"], "read8s_files": gen["read8s_files"],
                                "data_seek_files": len(gen["data_seek_files"]), "companion_files": gen["companion_files"]})
-    ck.proofs(["XmpProps.C07", "XmpModel.Gen.HioUsers"],
-              required=REQUIRED + ["Xmp.Gen.HioUsers.hioUsers_known", "Xmp.Gen.HioUsers.hioUsers_no_loader",
-                                   "Xmp.Gen.HioUsers.hioUsers_no_field"],
-              drivers=["drv_c07"])
+    # the translator-generated premise is built on its own: if it breaks (somebody new looks inside a handle)
+    # the rest of the check still runs and searches for a failing input
+    gen_req = ["Xmp.Gen.HioUsers.hioUsers_known", "Xmp.Gen.HioUsers.hioUsers_no_loader", "Xmp.Gen.HioUsers.hioUsers_no_field"]
+    ok_gen, out_gen = vlib.lean_build(["XmpModel.Gen.HioUsers"])
+    if not ok_gen:
+        errs = re.findall(r"error: (\S+?):(\d+):\d+: ([^\n]*)", out_gen)
+        ck.unproved("theorem Xmp.Gen.HioUsers.hioUsers_known / hioUsers_no_loader (premise: loaders touch the handle only through hio_*)",
+                    "generated list no longer satisfies the allowed classes: users=%s ; %s" % (
+                        ["%s:%s:%s" % (u["file"], u["func"], u["kind"]) for u in gen["hio_users"]],
+                        "; ".join("%s:%s %s" % e for e in errs[:2])))
+    ck.proofs(["XmpProps.C07"] + (["XmpModel.Gen.HioUsers"] if ok_gen else []),
+              required=REQUIRED + (gen_req if ok_gen else []), drivers=["drv_c07"])
     stream_correspondence(ck, stats)
     entrypoint_oracle(ck, gen, stats)
     for k, v in sorted(stats.items()):
